@@ -168,6 +168,20 @@ theorem C07_K6_from_C08 (lower : String → String) (N : Bridge.Naming) (hty : F
     (hsp : Bridge.Spaced lower N [] steps) : K6 Cfg.paper (Bridge.events lower N steps) = true :=
   Bridge.K6_of_run lower N hty hsv steps T0 hrun hd hsp
 
+/-- **K2, liveness half, from C08's host machine — under the event-loop axiom** (partial).  `Zc.Goodbye.Host.run` accepts every
+list of enabled blocks, so "three goodbyes are sent" does not follow from the machine alone: a run in which a pending task step
+never happens is a run.  With the liveness half of the loop axiom made explicit (`Bridge.Fair`: a broadcast task / close sequence
+pending after a step and due within the window is executed by a later step, at its due time) and the instance not yet closed
+(`Bridge.Open`), every `unreg` at `t` on the projected trace is followed by multicast goodbyes for that service at `t`, `t+125`,
+`t+250`: `C08_goodbyes` / `C08_goodbyes_all` executed step by step.  Missing for all of K2: the safety half `K2s` (a TTL-0 PTR
+is *only* sent within 250 ms of an `unreg`), which needs an invariant the C08 proofs do not have (every queued / live record has
+a non-zero TTL, i.e. services are registered with `other_ttl > 0`). -/
+theorem C07_K2l_from_C08_partial (lower : String → String) (N : Bridge.Naming) (steps : List Bridge.Step) (T0 endT : Int)
+    (hrun : Bridge.IsRun lower Goodbye.Host.init T0 steps) (hd : ∀ st ∈ steps, Bridge.Disc lower st)
+    (hfair : Bridge.Fair steps endT) (hopen : Bridge.Open steps) :
+    K2l Cfg.paper (Bridge.events lower N steps) endT = true :=
+  Bridge.K2l_of_run lower N steps T0 endT hrun hd hfair hopen
+
 /-- the contracts that are still hypotheses once K6 is discharged from the C08 model -/
 structure C07_ContractsFromModels (lower : String → String) (tr : Trace) (endT : Int) : Prop where
   wf : WF Cfg.paper tr endT = true
@@ -215,6 +229,8 @@ example : C07_bridgeTrace.map (fun tr => (sends tr).map (fun sd =>
     some [(350, [(4500, true)]), (575, [(4500, true)]), (800, [(4500, true)]), (1130, [(0, true)]), (1255, [(0, true)]),
           (1380, [(0, true)])] := by decide
 example : C07_bridgeTrace.map (K6 Cfg.paper) = some true := by decide
+/-- … and the three goodbyes of K2 are there (the example history executes every task step at its due time) -/
+example : C07_bridgeTrace.map (fun tr => K2l Cfg.paper tr 3000) = some true := by decide
 
 /-! ### non-vacuity: a concrete run satisfies every contract, and the conclusion is not trivial on it
 
